@@ -193,8 +193,7 @@ impl<F: Field> MultilinearExtension<F> for SparseMultilinearExtension<F> {
         let mut evaluations: Vec<_> = (0..1 << self.num_vars).map(|_| F::zero()).collect();
         self.evaluations
             .iter()
-            .map(|(&i, &v)| evaluations[i] = v)
-            .next_back();
+            .for_each(|(&i, &v)| evaluations[i] = v);
         evaluations
     }
 }
